@@ -11,6 +11,8 @@ import SimVerif.Kernel
 import SimVerif.Queue
 import SimVerif.Tcp
 import SimVerif.Nat
+import SimVerif.Pcap
+import SimVerif.Resolver
 
 namespace SimVerif.Drv
 
@@ -76,15 +78,17 @@ structure KSt where
   compl : List (Nat × Ec × String) := []       -- posted user completions: handler ↦ (ec, text after it)
   itimers : List ((String × Nat) × Nat) := []  -- (owner, slot) ↦ kernel timer id of an internal timer
   icbs : List ICb := []                        -- internal callbacks; kernel handler id = 2000000 + index
-  sends : List String := []
+  capture : List (List UInt8) := []            -- capture records (reversed)
   wrOff : List (String × Nat) := []            -- "<socket>/<stream>" ↦ next offset to write
   wrKeys : List (Nat × String) := []
+  rs : List (String × (String × R)) := []      -- resolvers: name ↦ (node, state)
   hidden : List String := []                   -- sockets of a socket-returning accept, not yet handed to the program
   pendNew : List (Nat × String) := []          -- accept handler ↦ the socket it will hand over           -- write handler ↦ its offset key                    -- capture log (reversed)
   pend : List (Nat × Nat) := []     -- timer ↦ handler id of the wait whose slot may be busy
   out  : List String := []          -- reversed
   stepNo : Nat := 0                 -- event boundaries seen (step hook)
   bad  : Bool := false
+  pendFinish : Option (String × Bool) := none  -- resolver whose on_lookup must finish after the inline handler
   pendInv : List Compl := []                   -- handlers to be called inline by the current internal callback
   dead : List Nat := []             -- destroyed timer ids (never reused)
 
@@ -128,6 +132,11 @@ def KSt.declare (s : KSt) (decl : List (List String)) : KSt :=
     | "route" :: "out" :: k :: hs => { s with net := { s.net with cfg := { s.net.cfg with routeOut := (k, hs) :: s.net.cfg.routeOut.filter (·.1 != k) } } }
     | "route" :: "net" :: k :: hs => { s with net := { s.net with cfg := { s.net.cfg with routeNet := (k, hs) :: s.net.cfg.routeNet.filter (·.1 != k) } } }
     | ["mtu", k, v] => { s with net := { s.net with cfg := { s.net.cfg with mtu := (k, v.toNat?.getD 1475) :: s.net.cfg.mtu.filter (·.1 != k) } } }
+    | "dns" :: name :: args =>
+      let err := match (findKv? args "err").getD "ok" with
+        | "ok" => Ec.ok | "host_not_found" => Ec.hostNotFound | _ => Ec.other
+      let ips := splitCommas ((findKv? args "ips").getD "")
+      { s with net := { s.net with cfg := { s.net.cfg with dns := (name, (err, ips, (findInt? args "lat").getD 0)) :: s.net.cfg.dns.filter (·.1 != name) } } }
     | "pcap" :: _ => { s with net := { s.net with cfg := { s.net.cfg with pcap := true } } }
     | _ => s) s
 
@@ -175,6 +184,10 @@ def applyQEffs (p : KParams) (qi : Nat) (effs : List QEff) (s : KSt) : KSt :=
         match s.net.fwdTarget fid with
         | some name => { s with net := s.net.tcpPacketDropped s.tp name pk }
         | none => s) s
+
+/-- dotted quad → number (the capture only handles IPv4) -/
+def ip4 (a : String) : Nat :=
+  (a.splitOn ".").foldl (fun acc x => acc * 256 + (x.toNat?.getD 0)) 0
 
 /-- the kernel timer standing for an internal timer object (allocated on first use) -/
 def KSt.itimer (s : KSt) (owner : String) (slot : Nat) : KSt × Nat :=
@@ -304,8 +317,10 @@ def applyNEffs (p : KParams) : Nat → List NEff → KSt → KSt
         let r := s.net.tcpAckPost s.tp sock wb acked
         let s := { s with net := r.1 }
         if r.2 then applyNEffs p f [.tcpWake sock] s else s
-      | .pcapUdp t src dst pl => { s with sends := ("udp t=" ++ toString t ++ " " ++ src.toString ++ ">" ++ dst.toString ++ " len=" ++ toString pl.length) :: s.sends }
-      | .pcapTcp t src dst sq pl => { s with sends := ("tcp t=" ++ toString t ++ " " ++ src.toString ++ ">" ++ dst.toString ++ " seq=" ++ toString sq ++ " len=" ++ toString pl.length) :: s.sends }
+      | .pcapUdp t src dst pl =>
+        { s with capture := Pcap.recordUdp t.toNat (ip4 src.addr) (ip4 dst.addr) src.port dst.port pl :: s.capture }
+      | .pcapTcp t src dst sq pl =>
+        { s with capture := Pcap.recordTcp t.toNat (ip4 src.addr) (ip4 dst.addr) src.port dst.port sq pl :: s.capture }
     applyNEffs p (f + 1) rest s
 termination_by f effs _ => (f, effs.length)
 
@@ -567,6 +582,70 @@ def doNetOp (p : KParams) (ctx : String) (op : List String) (s : KSt) : Option K
           | _, _ => some (res s "bad-op")
     | _ => none
 
+/-- does the host string parse as an IPv4 (dotted quad) or IPv6 literal? -/
+def isAddrLiteral (s : String) : Bool :=
+  let parts := s.splitOn "."
+  (parts.length == 4 && parts.all (fun x => x.length > 0 && x.length ≤ 3 && x.all Char.isDigit && (x.toNat?.getD 256) < 256))
+    || (s.contains ':' && s.all (fun c => c == ':' || c.isDigit || ('a' ≤ c && c ≤ 'f') || ('A' ≤ c && c ≤ 'F') || c == '.'))
+
+def resExtra (res : List (String × Nat)) : String :=
+  "res=" ++ (if res.isEmpty then "-" else ",".intercalate (res.map (fun e => ({ addr := e.1, port := e.2 } : Ep).toString)))
+
+def KSt.setR (s : KSt) (name : String) (r : R) : KSt :=
+  { s with rs := s.rs.map (fun e => if e.1 == name then (e.1, (e.2.1, r)) else e) }
+
+/-- interpret the effects of a resolver function; inline invocations go to `pendInv` -/
+def applyREffs (p : KParams) (name : String) (effs : List REff) (s : KSt) : KSt :=
+  effs.foldl (fun s e =>
+    match e with
+    | .armTimer e => applyNEffs p netFuel [.armTimer name 0 e (.resolverLookup name)] s
+    | .post h ec res => applyNEffs p netFuel [.post { h := h, ec := ec, extra := resExtra res }] s
+    | .invoke h ec res => { s with pendInv := s.pendInv ++ [{ h := h, ec := ec, extra := resExtra res }] }
+    | .ub => { s with bad := true }) s
+
+def hexStr (str : String) : String := hexOf str.toUTF8.toList
+
+/-- `r<k>.new|resolve|cancel|destroy` -/
+def doResolverOp (p : KParams) (rp : RParams) (ctx : String) (op : List String) (s : KSt) : Option KSt :=
+  match op with
+  | [] => none
+  | o :: args =>
+    match o.splitOn "." with
+    | [name, m] =>
+      if !(name.front == 'r') || !((name.drop 1).toString.toNat?).isSome then none else
+      let res := fun (s : KSt) (r : String) => s.emit ("C " ++ ctx ++ " " ++ joinSp op ++ " => " ++ r)
+      if m == "new" then some (res { s with rs := s.rs.filter (·.1 != name) ++ [(name, (objNode op s, {}))] } "-") else
+      match s.rs.lookup name with
+      | none => some (res s "skipped")
+      | some (node, r) =>
+        match m, args with
+        | "resolve", host :: service :: h :: _ =>
+          match parseId? "h" h with
+          | none => some (res s "bad-op")
+          | some hn =>
+            let host := if host == "-" then "" else host
+            let port := service.toNat?.getD 0
+            if isAddrLiteral host then
+              let x := r.resolveLiteral s.k.now host port hn
+              some (res (applyREffs p name x.2 (s.setR name x.1)) "-")
+            else
+              let req := ((s.net.cfg.ipsOf node).head?).getD "?"
+              let s := s.emit ("L lookup t=" ++ toString s.k.now ++ " req=" ++ req ++ " name=" ++ hexStr host)
+              let (err, ips, lat) := (s.net.cfg.dns.lookup host).getD (Ec.hostNotFound, [], 100000000)
+              let x := r.resolveName rp s.k.now err ips lat port hn
+              some (res (applyREffs p name x.2 (s.setR name x.1)) "-")
+        | "cancel", _ =>
+          let x := r.cancel
+          some (res (applyREffs p name x.2 (s.setR name x.1)) "-")
+        | "destroy", _ =>
+          -- ~basic_resolver(): cancel(), then the timer is destroyed
+          let x := r.cancel
+          let s := applyREffs p name x.2 (s.setR name x.1)
+          let s := applyNEffs p netFuel [.cancelTimer name 0] s
+          some (res { s with rs := s.rs.filter (·.1 != name) } "-")
+        | _, _ => some (res s "bad-op")
+    | _ => none
+
 mutual
 /-- Execute one op of context `ctx` (depth bounds inline `dispatch` nesting). -/
 def doOp (p : KParams) (scn : Scn) (depth : Nat) (ctx : String) (op : List String) (s : KSt) : KSt :=
@@ -596,6 +675,9 @@ def doOp (p : KParams) (scn : Scn) (depth : Nat) (ctx : String) (op : List Strin
     | none => { s with bad := true }
   | o :: args =>
     match doNetOp p ctx op s with
+    | some s' => s'
+    | none =>
+    match doResolverOp p {} ctx op s with
     | some s' => s'
     | none =>
     match timerOp? o with
@@ -661,6 +743,21 @@ def pollLoop (p : KParams) (scn : Scn) : Nat → KSt → Nat → KSt × Nat
             | some (.udpSendWait name) =>
               let r := s.net.udpSendWaitFired name (t.ec == Ec.aborted)
               applyNEffs p netFuel r.2 { s with net := r.1 }
+            | some (.resolverLookup name) =>
+              -- on_lookup(ec): guard, pop the front, call its handler inline (below), re-arm
+              if t.ec == Ec.aborted then s else
+              match s.rs.lookup name with
+              | none => s
+              | some (_, r) =>
+                match r.onLookupGuard {} s.k.now with
+                | some effs => applyREffs p name effs s
+                | none =>
+                  match r.onLookupPop with
+                  | (_, none) => s
+                  | (r1, some (v, empty)) =>
+                    let s := s.setR name r1
+                    { s with pendInv := s.pendInv ++ [({ h := v.h, ec := v.err, extra := resExtra v.res } : Compl)],
+                             pendFinish := some (name, empty) }
             | some (.tcpConnectRefused _ h) =>
               -- the handler was bound together with the refusal; the timer's own code is ignored
               { s with pendInv := s.pendInv ++ [({ h := h, ec := Ec.refused } : Compl)] }
@@ -671,6 +768,16 @@ def pollLoop (p : KParams) (scn : Scn) : Nat → KSt → Nat → KSt × Nat
             let s := s.emit ("H " ++ h ++ " t=" ++ toString s.k.now ++ " ec=" ++ toString c.ec
               ++ (if c.extra.isEmpty then "" else " " ++ c.extra) ++ " incall=0")
             doOps p scn 8 h (scn.ops h) s) { s with pendInv := [] }
+          |> (fun (s : KSt) =>
+            match s.pendFinish with
+            | none => s
+            | some (name, empty) =>
+              let s := { s with pendFinish := none }
+              match s.rs.lookup name with
+              | none => s          -- the resolver was destroyed by its own handler
+              | some (_, r) =>
+                let x := r.onLookupFinish {} empty
+                applyREffs p name x.2 (s.setR name x.1))
         else if t.h ≥ 1000000 then runQueueCb p t.h s     -- a queue's own callback (ignores `ec`)
         else
           let h := "h" ++ toString t.h
@@ -722,6 +829,7 @@ def runTop (p : KParams) (scn : Scn) : List (List String) → KSt → KSt
 def kernelTrace (p : KParams) (scn : Scn) : List String :=
   let s := runTop p scn (scn.ops "top") (({} : KSt).declare scn.decl)
   let s := s.emit ("Q t=" ++ toString s.k.now)
+  let s := if s.net.cfg.pcap then s.emit ("F pcap " ++ hexOf (Pcap.fileHeader ++ s.capture.reverse.flatten)) else s
   let body := s.out.reverse
   ["== " ++ scn.id] ++ body ++ (if s.bad then ["X model-error"] else []) ++ ["end"]
 
